@@ -454,6 +454,8 @@ pub fn graph_search(scn: &Scenario, budget: &Budget) -> (Stats, Option<Found>) {
 					let mut h = scn.init.clone();
 					h.extend(frontier[*ni].hist.iter().cloned());
 					h.push(ev.clone());
+					stats.states = seen.len() as u64;
+					stats.distinct_obs = obs_seen.len() as u64;
 					return (stats, Some(Found { scenario: scn.name.clone(), cfg: scn.cfg.clone(), history: h, fail: f }))
 				},
 				EdgeRes::Ok(o) => {
